@@ -44,7 +44,9 @@ PROPS = {
         "level": "exploration",
         "rule": "exhaustive over the 64 single-bit bitmaps, the 780 pairs of defined privileges, the 40 all-but-one bitmaps and empty/all "
                 "(TestC16Exhaustive), sampled 64-bit values and subsets beyond (TestC16Sampled), plus login-time wire check of the 354 "
-                "user-access bytes for accounts stored in named and legacy form (TestC16Wire) and per-bit authorization over all C05 cells "
+                "user-access bytes for accounts stored in named and legacy form (TestC16Wire), whole account directories of 2-6 files mixing the "
+                "legacy and the named form in every load order, loaded twice (the migrating start and the next): every account holds exactly its own "
+                "file's privileges (TestC16Dir), and per-bit authorization over all C05 cells "
                 "(TestC16Authz); oracle = independent privilege-number -> account-file-key table (hlref.PrivilegeNames) and MSB-first bit "
                 "numbering; non-trivial = bitmap has at least one defined privilege; distinct = hash(bitmap, storage form)",
         "assumptions": ["hlref.PrivilegeNames (written from the protocol's privilege list) is the naming oracle"],
@@ -52,12 +54,14 @@ PROPS = {
             {"test": "^TestC16Exhaustive$", "shards": 4, "timeout": 300},
             {"test": "^TestC16Sampled$", "shards": 4, "checks": 2000, "timeout": 300},
             {"test": "^TestC16Wire$", "shards": 4, "checks": 150, "timeout": 300},
+            {"test": "^TestC16Dir$", "shards": 2, "checks": 1500, "timeout": 300},
             {"test": "^TestC16Authz$", "shards": 16, "timeout": 600, "group": 1},
         ]},
         "thorough": {"runs": [
             {"test": "^TestC16Exhaustive$", "shards": 4, "timeout": 600},
             {"test": "^TestC16Sampled$", "shards": 8, "checks": 60000, "timeout": 3000},
             {"test": "^TestC16Wire$", "shards": 4, "checks": 4000, "timeout": 3000},
+            {"test": "^TestC16Dir$", "shards": 4, "checks": 50000, "timeout": 3000},
             {"test": "^TestC16Authz$", "shards": 16, "timeout": 1200, "group": 1},
         ]},
     },
